@@ -183,9 +183,12 @@ func genTextCase(r *rng) string {
 
 func errClass(err error) string {
 	msg := err.Error()
-	// strip position prefix "module§r…r,c…c: "
-	if i := strings.Index(msg, ": "); i >= 0 && strings.Contains(msg[:i], "§") {
-		msg = msg[i+2:]
+	// strip position prefix "module§r…r,c…c: " (the module name is arbitrary text — it may itself contain ": " — so the
+	// prefix ends at the first ": " AFTER the last "§")
+	if j := strings.LastIndex(msg, "§"); j >= 0 {
+		if i := strings.Index(msg[j:], ": "); i >= 0 {
+			msg = msg[j+i+2:]
+		}
 	}
 	switch {
 	case strings.HasPrefix(msg, "expected '") && strings.HasSuffix(msg, "', got EOF"):
